@@ -7,7 +7,7 @@ set_option linter.unusedSectionVars false
 set_option linter.unusedVariables false
 namespace Frappy.Lemmas.C01
 open FloatOps DType Frappy.Datatypes Frappy.Spec.C01
-open PVal (toFloat? seqItems? prevItems prevFields dictGet dictSet)
+open PVal (toFloat? seqItems? prevItems prevFields dictGet dictSet isNone given notOffered)
 
 variable {F : Type} [FloatOps F] [LawfulFloatOps F]
 
